@@ -70,7 +70,8 @@ ASSUMPTIONS = [
     'observed through a recording subclass of the predictive model (public interface)']
 REQUIRED = ['indiv', 'hier', 'filter', 'kind:gauss', 'kind:lognorm', 'kind:trunc', 'kind:pooled', 'kind:hetero',
             'noncentered', 'cov', 'cov_pooled', 'red', 'comp', 'bare', 'ids:unsorted', 'ids:default', 'stat',
-            'tight', 'wide', 'chains=1', 'draws=1', 'n_ids=1', 'param_map_swap', 'second_individual']
+            'tight', 'wide', 'chains=1', 'draws=1', 'n_ids=1', 'param_map_swap', 'second_individual',
+            'e2e:optimisation:broken_run']
 
 UNSORTED_IDS = ['id-e', 'id-b', 'id-d', 'id-a', 'id-c']
 SAMPLERS = {'haario': 'HaarioBardenetACMC', 'metropolis': 'MetropolisRandomWalkMCMC'}
@@ -202,6 +203,11 @@ def _draw_common(draw, spec):
     spec['pp_n'] = draw(st.integers(1, 4))
     spec['pp_seed'] = draw(st.integers(0, 9999))
     spec['pp_swap'] = bool(gen.chance(draw, 0.35))
+    spec['fail_runs'] = None
+    if spec.get('n_runs', 1) >= 2 and gen.chance(draw, 0.4):
+        # some (not the first, not all) optimisation runs break
+        spec['fail_runs'] = sorted(draw(gen.subset(spec['n_runs'] - 1, min_size=1, max_size=spec['n_runs'] - 1)))
+        spec['fail_runs'] = [j + 1 for j in spec['fail_runs']]
     spec['pp_times'] = gen.distinct(draw(gen.vec(gen.logu(0.05, 20.0), draw(st.integers(1, 3)))))
 
 
@@ -844,6 +850,10 @@ def _run_optimisation(case, s, P, L):
     orig = pints.OptimisationController.run
 
     def wrapped(self, *a, **k):
+        if len(captured) in (s.get('fail_runs') or []):
+            # fault injection: this optimisation run breaks (chi documents NaN estimates and score for such a run)
+            captured.append(None)
+            raise RuntimeError('injected failure of optimisation run %d' % len(captured))
         try:
             x, f = orig(self, *a, **k)
         except Exception:
@@ -870,6 +880,8 @@ def _run_optimisation(case, s, P, L):
         return
     if any(c is not None for c in captured):
         case.labels.append('e2e:optimisation')
+    if any(c is None for c in captured) and any(c is not None for c in captured):
+        case.labels.append('e2e:optimisation:broken_run')
     with case.clause('table'):
         case.equal([str(c) for c in table.columns], ['ID', 'Parameter', 'Estimate', 'Score', 'Run'], 'columns')
         case.equal(len(table), s['n_runs'] * L.n, 'number of rows', kind='shape')
